@@ -43,6 +43,7 @@ type Log struct {
 
 // Add appends an event and returns its sequence number.
 func (l *Log) Add(who, kind string, pkt packet.Generic, note string) int64 {
+	pkt = ref.Clone(pkt) // the system under test mutates packets it keeps (DUP flag)
 	l.mu.Lock()
 	l.seq++
 	s := l.seq
